@@ -305,6 +305,13 @@ func runSpec(repo, out string, sp spec) result {
 			sb.WriteString(s)
 			res.OK = append(res.OK, "decoder")
 		}
+		s, err = trX86Arms(pkg)
+		if err != nil {
+			res.Failed["decode1-arms"] = err.Error()
+		} else {
+			sb.WriteString(s)
+			res.OK = append(res.OK, "decode1-arms")
+		}
 	}
 	if sp.A64Table {
 		s, err := trA64Table(pkg)
